@@ -83,8 +83,10 @@ class IrregularSampleIntervalStrategy(
         count: int,
     ) -> Iterable[TTimestamp_co]:
         assert timing._timestamps is not None
-        if count > len(timing._timestamps):
-            raise ValueError("The count must be less than or equal to the number of timestamps.")
+        if start_index + count > len(timing._timestamps):
+            raise ValueError(
+                "The start index plus the count must be less than or equal to the number of timestamps."
+            )
         return timing._timestamps[start_index : start_index + count]
 
     def append_timestamps(  # noqa: D102 - Missing docstring in public method - override
